@@ -125,7 +125,7 @@ func runC13(c *Ctx) {
 			"params:MinimumDifficultyGenesis": "99999999", "params:MinimumDifficultyHF1": "100001792",
 			"params:MinimumDifficultyHF3": "30959185800", "params:MinimumDifficultyHF5": "46039386",
 			"params:MinimumDifficultyHF5Testnet": "46039386",
-			"params:DifficultyBoundDivisor": "2048", "params:DifficultyBoundDivisorHF5": "16",
+			"params:DifficultyBoundDivisor":      "2048", "params:DifficultyBoundDivisorHF5": "16",
 			"params:DifficultyBoundDivisorHF6": "128", "params:DifficultyBoundDivisorHF8": "1024",
 			"params:DurationLimit": "240", "params:DurationLimitHF6": "180",
 		} {
@@ -148,7 +148,6 @@ func runC13(c *Ctx) {
 		c.Ob("C13-R4", "VerifyHeaders workers call verifyHeaderWorker", c.FnPos(fn), n >= 1, "")
 	})
 }
-
 
 // c13Difficulty checks the dispatch structure of calcDifficultyHFX against the documented fork schedule.
 func c13Difficulty(c *Ctx) {
@@ -337,7 +336,7 @@ func c13Difficulty(c *Ctx) {
 			}
 			n++
 			res := fg.tr.term(rs.State, rs.Ret.Results[0], 0)
-			ok := regexp.MustCompile(`^math\.BigMax\((new\(Int\)(~\d+)?, params\.`+t.min+`|params\.`+t.min+`, new\(Int\)(~\d+)?)\)$`).MatchString(res)
+			ok := regexp.MustCompile(`^math\.BigMax\((new\(Int\)(~\d+)?, params\.` + t.min + `|params\.` + t.min + `, new\(Int\)(~\d+)?)\)$`).MatchString(res)
 			c.Ob("C13-R3", t.fn+" main-net result is max(x, params."+t.min+")", c.Position(rs.Ret.Pos()), ok, "returns "+res)
 		}
 		if n == 0 {
@@ -355,8 +354,7 @@ func c13Difficulty(c *Ctx) {
 		if rs.State.lits["uint64#1 == params.MainnetChainConfig.ChainId.Uint64()"] {
 			want = "MinimumDifficultyHF5"
 		}
-		ok := regexp.MustCompile(`^math\.BigMax\((new\(Int\)(~\d+)?, params\.`+want+`|params\.`+want+`, new\(Int\)(~\d+)?)\)$`).MatchString(res)
+		ok := regexp.MustCompile(`^math\.BigMax\((new\(Int\)(~\d+)?, params\.` + want + `|params\.` + want + `, new\(Int\)(~\d+)?)\)$`).MatchString(res)
 		c.Ob("C13-R3", "calcDifficultyGrandparent result is max(x, params."+want+")", c.Position(rs.Ret.Pos()), ok, "returns "+res)
 	}
 }
-
